@@ -242,7 +242,7 @@ def make_queries(tier):
         E.cover("three headers, one dropped", z3.And(cnt.e == bv(3), n_out == bv(2)))
         E.cover("an innocuous header is forwarded", z3.And(cnt.e == bv(1), n_out == bv(1)))
 
-    def q_redirect_loop(E):
+    def q_redirect_loop(E, entry="<RedirectResolver as SyncHttpResolver>::http_resolve"):
         """RedirectResolver::http_resolve: at most ten redirects are followed, none when redirects are disabled,
         and a hop is re-issued only to a target that host_is_non_global did not flag"""
         if E.mode != "symbolic":
@@ -278,7 +278,7 @@ def make_queries(tier):
 
         def build_req(I_, args, pc):
             return ok(VStruct("Request", {"uri": args[3]}))
-        for name, fn in (("Transport::http_resolve", transport), ("redirect_location", redirect_location),
+        for name, fn in (("Transport::http_resolve", transport), ("Transport::http_resolve_async", transport), ("redirect_location", redirect_location),
                          ("resolve_redirect_target", resolve_target), ("host_is_non_global", host_check),
                          ("build_redirected_request", build_req), ("sanitize_for_log", lambda I_, a, pc: VStr(bstr.lit("<log>"))),
                          ("Request::uri", lambda I_, a, pc: a[0].fields["uri"]), ("Request::method", lambda I_, a, pc: VUnit()),
@@ -287,7 +287,7 @@ def make_queries(tier):
             I.overrides[name] = fn
         resolver = VStruct("RedirectResolver", {"inner": VStruct("Transport", {}), "allow_redirects": allow})
         req = VStruct("Request", {"uri": VStruct("Uri", {"host": some(VStr(bstr.lit("start"))), "marker": VInt(99)})})
-        res = E.call("<RedirectResolver as SyncHttpResolver>::http_resolve", resolver, req)
+        res = E.call(entry, resolver, req)
         n_calls = bv(0)
         for g in calls:
             n_calls = n_calls + z3.If(g, bv(1), bv(0))
@@ -306,7 +306,11 @@ def make_queries(tier):
         E.cover("chain stopped by an internal target at the third hop", z3.And(n_calls == bv(3), z3.Not(is_ok(res)), allow.e))
         E.cover("successful two-hop chain", z3.And(n_calls == bv(3), is_ok(res)))
 
-    return [q_localhost_names, q_missing_host, q_ipv4_literal, q_obfuscated_numeric, q_hex_labels, q_headers, q_redirect_loop]
+    def q_redirect_loop_async(E):
+        """the async twin of the hop loop (executed as straight-line code; replayed through the sync entry point only)"""
+        return q_redirect_loop(E, "<RedirectResolver as AsyncHttpResolver>::http_resolve_async")
+
+    return [q_localhost_names, q_missing_host, q_ipv4_literal, q_obfuscated_numeric, q_hex_labels, q_headers, q_redirect_loop, q_redirect_loop_async]
 
 
 def replay_redirects(E):
